@@ -554,12 +554,14 @@ fn parse_inner<J: Jet>(
 
             if let Some(idx) = data.left_index {
                 for (name, count) in &counts[idx] {
-                    *new_counts.entry(Arc::clone(name)).or_insert(0) += count;
+                    let total = new_counts.entry(Arc::clone(name)).or_insert(0usize);
+                    *total = total.saturating_add(*count);
                 }
             }
             if let Some(idx) = data.right_index {
                 for (name, count) in &counts[idx] {
-                    *new_counts.entry(Arc::clone(name)).or_insert(0) += count;
+                    let total = new_counts.entry(Arc::clone(name)).or_insert(0usize);
+                    *total = total.saturating_add(*count);
                 }
             }
 
@@ -567,7 +569,10 @@ fn parse_inner<J: Jet>(
                 data.node.inner(),
                 node::Inner::Disconnect(_, _) | node::Inner::Witness(_)
             ) {
-                *new_counts.entry(Arc::clone(data.node.name())).or_insert(0) += 1;
+                let total = new_counts
+                    .entry(Arc::clone(data.node.name()))
+                    .or_insert(0usize);
+                *total = total.saturating_add(1);
             }
 
             counts.push(new_counts);
